@@ -418,7 +418,8 @@ impl Bdd {
                 if term.is_truth_value() {
                     0
                 } else {
-                    self.max_depth(self.nodes[term.0].hi())
+                    1 + self
+                        .max_depth(self.nodes[term.0].hi())
                         .max(self.max_depth(self.nodes[term.0].lo()))
                 }
             }
